@@ -38,6 +38,9 @@ type vC18ID [32]byte
 func (h vC18ID) bit(i int) byte { return (h[i/8] >> (7 - uint(i%8))) & 1 }
 
 func (h vC18ID) bits(n int) string {
+	if n > 256 {
+		n = 256
+	}
 	b := make([]byte, n)
 	for i := range b {
 		b[i] = '0' + h.bit(i)
@@ -266,8 +269,29 @@ func vC18MaskStr(nbits int, mask uint32) string {
 	return "{" + strings.Join(s, ",") + "}"
 }
 
+// vC18AllocCtx keeps per-case clause counters (flushed once) so that millions of evaluations
+// do not go through the case mutex.
+type vC18AllocCtx struct {
+	f  *vC18Failer
+	cl map[string]int
+}
+
+func (a *vC18AllocCtx) check(ok bool, clause, sig string, detail func() string) bool {
+	a.cl[clause]++
+	if !ok {
+		a.f.fail(clause, sig, "%s", detail())
+	}
+	return ok
+}
+
+func (a *vC18AllocCtx) flush() {
+	for k, n := range a.cl {
+		a.f.c.ClauseN(k, n)
+	}
+}
+
 // vC18AllocEval runs AllocateToKClosest on fixed-length keys and compares with brute force.
-func vC18AllocEval(f *vC18Failer, nbits int, destMask, itemMask uint32, dests, items *trie.Trie[bitstr.Key, int], k int) {
+func vC18AllocEval(a *vC18AllocCtx, nbits int, destMask, itemMask uint32, dests, items *trie.Trie[bitstr.Key, int], k int) {
 	res := AllocateToKClosest(items, dests, k)
 	n := 1 << nbits
 	var recv [32]uint32 // item -> set of destinations
@@ -293,42 +317,38 @@ func vC18AllocEval(f *vC18Failer, nbits int, destMask, itemMask uint32, dests, i
 	in := func() string {
 		return fmt.Sprintf("items=%s dests=%s k=%d -> %v", vC18MaskStr(nbits, itemMask), vC18MaskStr(nbits, destMask), k, res)
 	}
-	f.check(!foreign, "alloc-foreign", "alloc/foreign", "allocation names a destination or item that was not supplied: %s", in())
-	f.check(!dup, "alloc-no-duplicate", "alloc/duplicate", "an item is allocated twice to the same destination: %s", in())
+	a.check(!foreign, "alloc-foreign", "alloc/foreign", func() string { return "allocation names a destination or item that was not supplied: " + in() })
+	a.check(!dup, "alloc-no-duplicate", "alloc/duplicate", func() string { return "an item is allocated twice to the same destination: " + in() })
 	if destMask == 0 || itemMask == 0 || k == 0 {
-		f.check(len(res) == 0, "alloc-empty", "alloc/empty-input", "empty input must allocate nothing: %s", in())
+		a.check(len(res) == 0, "alloc-empty", "alloc/empty-input", func() string { return "empty input must allocate nothing: " + in() })
 		return
 	}
-	var dl []int
-	for d := 0; d < n; d++ {
-		if destMask&(1<<d) != 0 {
-			dl = append(dl, d)
-		}
-	}
-	want := k
-	if len(dl) < want {
-		want = len(dl)
+	want := vC18Popcount(destMask)
+	if k < want {
+		want = k
 	}
 	for it := 0; it < n; it++ {
 		if itemMask&(1<<it) == 0 {
 			continue
 		}
-		sort.Slice(dl, func(a, b int) bool { return dl[a]^it < dl[b]^it })
+		// the `want` XOR-nearest destinations: walk the distances 0,1,2,... (d = it ^ dist)
 		var exp uint32
-		for _, d := range dl[:want] {
-			exp |= 1 << d
+		for dist, left := 0, want; left > 0; dist++ {
+			if d := it ^ dist; destMask&(1<<d) != 0 {
+				exp |= 1 << d
+				left--
+			}
 		}
 		got := recv[it]
-		cnt := 0
-		for x := got; x != 0; x &= x - 1 {
-			cnt++
-		}
-		if !f.check(cnt == want, "alloc-count", "alloc/count", "item %s allocated to %d destinations %s, want min(k,#dests)=%d: %s",
-			vC18KeyStr[nbits][it], cnt, vC18MaskStr(nbits, got), want, in()) {
+		cnt := vC18Popcount(got)
+		if !a.check(cnt == want, "alloc-count", "alloc/count", func() string {
+			return fmt.Sprintf("item %s allocated to %d destinations %s, want min(k,#dests)=%d: %s", vC18KeyStr[nbits][it], cnt, vC18MaskStr(nbits, got), want, in())
+		}) {
 			continue
 		}
-		f.check(got == exp, "alloc-nearest", "alloc/not-xor-nearest", "item %s allocated to %s, XOR-nearest %d are %s: %s",
-			vC18KeyStr[nbits][it], vC18MaskStr(nbits, got), want, vC18MaskStr(nbits, exp), in())
+		a.check(got == exp, "alloc-nearest", "alloc/not-xor-nearest", func() string {
+			return fmt.Sprintf("item %s allocated to %s, XOR-nearest %d are %s: %s", vC18KeyStr[nbits][it], vC18MaskStr(nbits, got), want, vC18MaskStr(nbits, exp), in())
+		})
 	}
 }
 
@@ -346,7 +366,8 @@ func TestVerif_C18_alloc_exhaustive(t *testing.T) {
 		Rule: "AllocateToKClosest over fixed-length bitstr keys, complete enumeration: 3-bit keys, ALL 256 destination subsets x 256 item subsets x k=0..9 (case i < 256 = destination subset i); 4-bit keys, ALL 65 536 destination subsets (subset m in case m mod #cases) x every single item x k in {1,2,3,5,8,16,17} (quick) / x every item set of size <= 2 x k=0..17 (thorough). Oracle: brute-force XOR distance on the integers. Every case is non-trivial (counted per case index)",
 		Clauses: []string{"alloc-count", "alloc-nearest", "alloc-no-duplicate", "alloc-foreign", "alloc-empty"}},
 		func(c *vh.Case) {
-			f := vC18NewFailer(c)
+			f := &vC18AllocCtx{f: vC18NewFailer(c), cl: map[string]int{}}
+			defer f.flush()
 			ncases := c.Spec.Quick
 			if c.Tier == "thorough" {
 				ncases = c.Spec.Thorough
